@@ -188,7 +188,8 @@ func classify(fs []*finding) []*finding {
 		case "pct": // pct|oracle|ckind|after=|before=
 			add("comment-with-percent|"+p[1], 25+oracleRank[p[1]], f, p[2]+" after "+keyField(f.key, "after")+" before "+keyField(f.key, "before"))
 		case "accepted-mutant":
-			add(f.key, 10+oracleRank[p[1]], f, "")
+			// one class per oracle and mutation kind (the token context goes to failing_positions)
+			add("accepted-mutant|"+p[1]+"|"+p[2], 10+oracleRank[p[1]], f, strings.Join(p[3:], " "))
 		case "comment":
 			oracle, ck := p[1], p[2]
 			after, before := keyField(f.key, "after"), keyField(f.key, "before")
